@@ -79,3 +79,5 @@ open Csproto
 -- a packed reader of the current decoder.go (loop, append, shadowing locals) refines Dec.step .packedUint64; the loop terminates
 #print axioms Csproto.Bridge.PackedFuncs.loop_eq
 #print axioms Csproto.Bridge.PackedFuncs.DecodePackedUint64_refines
+#print axioms Csproto.Bridge.PackedFuncs.loop_eqI
+#print axioms Csproto.Bridge.PackedFuncs.DecodePackedInt64_refines
